@@ -5,7 +5,7 @@ import em_common as E
 
 RULE = ("as C01 (references of 3-40 atoms; generic, partially collinear, collinear, grid geometries) plus references of one and "
         "two atoms (random completion points recorded from np.random.rand); the map is applied to Q.ref + t with Q a proper "
-        "rotation (random axis/angle; one in eight about a coordinate axis by a multiple of 30/90 degrees) and |t_i| <= 50 nm. "
+        "rotation (random axis/angle; one in eight about a coordinate axis by 90, 120 or 180 degrees) and |t_i| <= 50 nm. "
         "A case is non-trivial when distinct.")
 
 TOL = 1e-8
@@ -112,14 +112,14 @@ CORPUS = [
 def corpus(ctx):
     S = ctx.cov["S"]
     S["corpus"] = 0
-    for spec in CORPUS:
-        for Q in _ROTS:
-            for t in ([0.0, 0.0, 0.0], [12.5, -40.0, 3.25]):
-                bad = motion_failures(spec, Q, t)
-                S["corpus"] += 1
-                if bad:
-                    ctx.violation("rigid motion: " + "; ".join(bad),
-                                  {"kind": "c02", "spec": spec, "Q": np.array(Q).tolist(), "t": list(t)}, key="motion")
+    runs = [(spec, Q, t) for spec in CORPUS for Q in _ROTS for t in ([0.0, 0.0, 0.0], [12.5, -40.0, 3.25])]
+    runs += [(spec, _ROTS[0], [12.5, -40.0, 3.25]) for spec in E.shipped_specs(ctx.n(40, 10 ** 6))]
+    for spec, Q, t in runs:
+        bad = motion_failures(spec, Q, t)
+        S["corpus"] += 1
+        if bad:
+            ctx.violation("rigid motion: " + "; ".join(bad),
+                          {"kind": "c02", "spec": spec, "Q": np.array(Q).tolist(), "t": list(t)}, key="motion")
 
 
 def _item(spec, Q, t, stream):
@@ -129,7 +129,7 @@ def _item(spec, Q, t, stream):
 
 def correspondence(ctx):
     rs = ctx.np_rng("K")
-    items = [_item(spec, _ROTS[0], [12.5, -40.0, 3.25], "corpus") for spec in CORPUS]
+    items = [_item(spec, _ROTS[0], [12.5, -40.0, 3.25], "corpus") for spec in CORPUS + E.shipped_specs(ctx.n(40, 10 ** 6))]
     for i in range(ctx.n(270, 4000)):
         spec = E.gen_spec(rs, E.GEOMS_GENERIC[i % len(E.GEOMS_GENERIC)])
         items.append(_item(spec, *gen_motion(rs), "generic"))
